@@ -96,12 +96,13 @@ structure St where
   bq : T → Nat                   -- ghost: index of the building queuer started for the target
   tm : T → Nat                   -- ghost: index of the build task sent for the target
   wk : T → Nat                   -- ghost: index of the worker that received it
+  failed : Bool                  -- `progress.failed` / `buildFailed`: some failure was logged (decides the exit status)
 
 def St.init : St :=
   { st := fun _ => .inactive, fin := fun _ => false, qs := fun _ => none, nextQ := 0, chan := fun _ => none,
     nextM := 0, ws := fun _ => none, nextW := 0, numPending := 1, stopped := false, initDone := false,
     starts := fun _ => 0, nres := fun _ => 0, res := fun _ => none,
-    bq := fun _ => 0, tm := fun _ => 0, wk := fun _ => 0 }
+    bq := fun _ => 0, tm := fun _ => 0, wk := fun _ => 0, failed := false }
 
 /-- static parameters of one invocation -/
 structure Cfg where
@@ -112,6 +113,7 @@ structure Cfg where
 inductive Action where
   | activate (t : T) (force : Bool)   -- `queueResolvedTarget` called from outside a queuer
   | queuer (i : Nat)                  -- next atomic step of queuer `i`
+  | queuerAbort (i : Nat)             -- `queueTarget(dep)` failed: `asyncError` (log failure, `Stop`), return
   | take (m : Nat)                    -- the dispatcher receives task `m` and starts a worker goroutine
   | drop (m : Nat)                    -- the sender of task `m` finds the channel closed (recovered panic)
   | workerStart (w : Nat)             -- `target.SetState(core.Building)`
@@ -173,6 +175,15 @@ def fire (s : St) : Action → Option St
     match s.qs i with
     | some q => queuerStep c s i q
     | none => none
+  | .queuerAbort i =>
+    -- state.go:1181-1184: the dependency cannot be queued (it does not exist); the target stays Active for ever
+    match s.qs i with
+    | some q =>
+      match q.ph with
+      | .queueDeps (_ :: _) =>
+        some { s with qs := upd s.qs i (some { q with ph := .done }), stopped := true, failed := true }
+      | _ => none
+    | none => none
   | .take m =>
     match s.chan m with
     | some t => some { s with chan := upd s.chan m none, ws := upd s.ws s.nextW (some ⟨t, .taken⟩), nextW := s.nextW + 1,
@@ -200,7 +211,7 @@ def fire (s : St) : Action → Option St
     match s.ws w with
     | some ⟨t, .building⟩ =>
       some { s with st := upd s.st t .failed, fin := upd s.fin t true, nres := upd s.nres t (s.nres t + 1),
-                    res := upd s.res t (some .failed), ws := upd s.ws w (some ⟨t, .finished⟩) }
+                    res := upd s.res t (some .failed), ws := upd s.ws w (some ⟨t, .finished⟩), failed := true }
     | _ => none
   | .workerDone w =>
     match s.ws w with
